@@ -66,6 +66,9 @@ type Exec struct {
 	divergence string
 }
 
+// ListenHook, when set, replaces the network listen of the instrumented varlink package.
+var ListenHook func(network, address string) (interface{}, error)
+
 // X is the execution in progress (nil outside of executions).
 var X *Exec
 
@@ -386,4 +389,18 @@ func (x *Exec) Threads() []string {
 		out = append(out, fmt.Sprintf("%d:%s:%s", t.ID, t.Name, st))
 	}
 	return out
+}
+
+// AliveNamed counts unfinished threads whose name starts with prefix.
+func AliveNamed(prefix string) int {
+	n := 0
+	if X == nil {
+		return 0
+	}
+	for _, t := range X.threads {
+		if !t.done && strings.HasPrefix(t.Name, prefix) {
+			n++
+		}
+	}
+	return n
 }
